@@ -690,6 +690,12 @@ class Monitor:
             cls = None
             if result[0] == "deadlock" and self.cfg.get("lazy", True) and T.group_reentry():
                 cls = "lazy-wait-across-group-reentry"
+            if result[0] == "exc" and result[1] == "AssertionError" and "incomparable" in result[2] \
+                    and not any(self.X.values()) and not self.cur and T.group_reentry():
+                # F7: the assertion comes out of the minimum-delay closures that run() performs
+                # BEFORE any simulator is stepped, for a scenario in which one path between two
+                # members of a group leaves the group and comes back
+                cls = "incomparable-in-closure"
             self.add("C05", _outcome_kind(result), f"run() ended with {result}", cls=cls)
             if exp_loop and cls is None and not (result[0] == "exc" and result[1] == "ScenarioError"):
                 # a loop that exceeds the bound must be STOPPED WITH THE ERROR, not hang
